@@ -3686,9 +3686,13 @@ class StateEngine(object):
         deadline (a backlog on the event queue, a redelivery after a restart)
         the execution has timed out whatever the type of the state is, so it
         is failed here as those timers would, before the state does any work.
+        A Map state re-entered for its next MaxConcurrency batch is left to
+        launch it: the event carries the frame of its own results, not that
+        of a Branch, so failing it here would bypass the collection of the
+        results. The first states of the iterations will be failed instead.
         """
         start_time = context["Execution"].get("StartTime")
-        if start_time:
+        if start_time and not reentered_map:
             execution_timeout = ASL.get("TimeoutSeconds", self.execution_ttl)
             execution_timestamp = parse_rfc3339_datetime(start_time).timestamp()
             if time.time() > execution_timestamp + execution_timeout:
